@@ -22,7 +22,6 @@ import (
 	"testing"
 	"time"
 
-	"github.com/cbeuw/Cloak/internal/verifhook"
 	kit "github.com/cbeuw/Cloak/internal/verifkit"
 )
 
@@ -41,9 +40,20 @@ func TestVerifC17Trace(t *testing.T) {
 	defer env.close()
 	res := kit.NewResult()
 	defer func() { res.Save(true) }()
-	tw := kit.NewTraceWriter("trace.ndjson")
-	defer tw.Close()
 	rng := kit.NewRng(kit.Seed()*7919 + 17)
+	// several worlds (one trace file each): the validation cost grows with the number of sessions a world has seen
+	worlds := kit.EnvInt("VERIF_C17_WORLDS", 1)
+	for wi := 0; wi < worlds; wi++ {
+		if !c17TraceWorld(t, env, res, rng, wi) {
+			break
+		}
+	}
+	res.Stat("worlds", int64(worlds))
+}
+
+func c17TraceWorld(t *testing.T, env *panelEnv, res *kit.Result, rng *kit.Rng, wi int) bool {
+	tw := kit.NewTraceWriter(fmt.Sprintf("trace_%d.ndjson", wi))
+	defer tw.Close()
 	cfg := panelCfg{Name: "b2", NU: 2, Caps: []int{3, 3}, Creds: []int{9, 9}, Init: []int{11, 21}, Mode: "trace"}
 	w, err := panelNewWorld(env, cfg, c17Slots)
 	if err != nil {
@@ -76,7 +86,8 @@ func TestVerifC17Trace(t *testing.T) {
 	nextKey := 1000
 	conns := 0
 	expired := map[int]bool{}
-	for r := 0; r < rounds && res.NumViolations() == 0; r++ {
+	orphans := map[int]bool{}
+	for r := 0; r < rounds; r++ {
 		k := 2 + rng.Intn(c17Slots-1)
 		start := make(chan struct{})
 		var wg sync.WaitGroup
@@ -136,7 +147,7 @@ func TestVerifC17Trace(t *testing.T) {
 				case "conn":
 					keyID := p.obj
 					p.obj = 0
-					r, okey, sesh := c17Conn(w, p, keyID)
+					r, okey, sesh := panelConnFree(w, p, keyID)
 					ret["res"], ret["okey"] = r, okey
 					if r == "new" {
 						smu.Lock()
@@ -185,6 +196,7 @@ func TestVerifC17Trace(t *testing.T) {
 				ev = append(ev, "first dump:\n"+g1.text, "second dump (+300 ms):\n"+g2.text)
 			}
 			sort.Strings(cyc)
+			cyc = c17Dedupe(cyc)
 			if all && len(cyc) > 0 {
 				// once more after a longer pause: still the same picture?
 				time.Sleep(2 * time.Second)
@@ -204,7 +216,7 @@ func TestVerifC17Trace(t *testing.T) {
 				res.Stat("stuck", 1)
 			}
 			res.Stat("rounds", int64(r))
-			return
+			return false
 		}
 		for _, p := range procs {
 			if p.panic != "" {
@@ -230,10 +242,11 @@ func TestVerifC17Trace(t *testing.T) {
 		for i, ob := range obs.Obj {
 			if ob.Live {
 				live = append(live, ob.K)
-				if !ob.Own {
+				if !ob.Own && !orphans[ob.K] {
+					orphans[ob.K] = true
 					res.Violate("owned:b2", fmt.Sprintf(
-						"after round %d (%v) session %d (user %d, id %d, key %d) is live but not reachable from panel.activeUsers",
-						r, sig, i+1, ob.U, ob.S, ob.K), map[string]any{"round": r, "ops": sig, "trace_line": tw.Events() + 1})
+						"world %d, after round %d (%v) session %d (user %d, id %d, key %d) is live but not reachable from panel.activeUsers",
+						wi, r, sig, i+1, ob.U, ob.S, ob.K), map[string]any{"world": wi, "round": r, "ops": sig, "trace_line": tw.Events() + 1})
 				}
 			}
 		}
@@ -260,46 +273,15 @@ func TestVerifC17Trace(t *testing.T) {
 	res.Stat("conns", int64(conns))
 	res.Stat("events", tw.Events())
 	w.shutdown()
+	return true
 }
 
-// c17Conn is runConn without gates: the admission sequence of dispatcher.go:231-252
-func c17Conn(w *panelWorld, p *panelProc, keyID int) (string, int, any) {
-	uid, sid := w.uid[p.op.U], uint32(p.op.S)
-	var key [32]byte
-	w.mu.Lock()
-	copy(key[:], w.env.rng.Bytes(32))
-	w.mu.Unlock()
-	user, err := w.panel.GetUser(uid)
-	if err != nil {
-		return "unauth", 0, nil
-	}
-	p.user = user
-	w.recOf(user)
-	verifhook.At("dispatch.user.resolved", uint64(sid))
-	sesh, existing, err := user.GetSession(sid, w.seshConfig(key))
-	if err != nil {
-		w.at(p, "failed", nil)
-		user.CloseSession(sid, "")
-		return "refused", 0, nil
-	}
-	if existing {
-		idx := 0
-		for i := 0; i < 20000 && idx == 0; i++ {
-			w.mu.Lock()
-			idx = w.objIdx[sesh]
-			w.mu.Unlock()
-			if idx == 0 {
-				time.Sleep(50 * time.Microsecond)
-			}
+func c17Dedupe(xs []string) []string {
+	out := xs[:0]
+	for i, x := range xs {
+		if i == 0 || x != xs[i-1] {
+			out = append(out, x)
 		}
-		if idx == 0 {
-			p.panic = "GetSession returned a session nobody created"
-			return "hit", -1, nil
-		}
-		w.attach(w.objs[idx-1], true)
-		return "hit", w.objs[idx-1].keyOwner, sesh
 	}
-	o := w.register(sesh, user, p.op.U, sid, key, keyID)
-	w.attach(o, false)
-	return "new", keyID, sesh
+	return out
 }
